@@ -210,15 +210,15 @@ theorem failed_native_action_leaves_no_trace (fuel : Nat) (ro : Bool) (gas : Nat
       (if keepGas h gas < h.pFail then (.fail, s, 0)
        else if h.swallow then exec fuel ro (keepGas h gas - h.pFail) rest s else (.revert, s, keepGas h gas - h.pFail)) := by
   apply failed_precompile_call_leaves_no_trace fuel ro gas h req sh out [] act rest s hsh (by simp) hpre hfund
-  have hb : sh.outerBefore = false ∧ sh.evmAfterWrite = false ∧ sh.dropsActionError = false := by
+  have hb : sh.outerBefore = false ∧ sh.evmAfterWrite = false ∧ sh.dropsActionError = false ∧ sh.outerOnError = false := by
     simp only [RunShape.clean, Bool.and_eq_true, Bool.not_eq_true'] at hsh
-    exact ⟨hsh.1.1.1, hsh.1.2, hsh.2⟩
+    exact ⟨hsh.1.1.1.1, hsh.1.1.2, hsh.1.2, hsh.2⟩
   unfold runPre
   rcases hfail with hlt | hact
   · simp [hlt]
   · by_cases hlt : fwdGas h gas + h.stip < req
     · simp [hlt]
-    · simp [hlt, hb.1, hb.2.1, hb.2.2, runClosure, runInner, St.keeper, hact]
+    · simp [hlt, hb.1, hb.2.1, hb.2.2.1, hb.2.2.2, runClosure, runInner, St.keeper, hact]
 
 /-- a precompile call (clean shape, no EVM calls inside) that succeeds contributes exactly its action's result (and its
 logs) to the state the caller goes on with — journaled, so that it is undone as one unit with the rest of the frame
@@ -236,7 +236,7 @@ theorem successful_native_action_kept (fuel : Nat) (ro : Bool) (gas : Nat) (h : 
          { t with native := if sh.outerAfter then out a.2.1 else a.2.1, journal := .native (s.enter h).native :: t.journal }) := by
   have hb : sh.outerBefore = false ∧ sh.evmAfterWrite = false := by
     simp only [RunShape.clean, Bool.and_eq_true, Bool.not_eq_true'] at hsh
-    exact ⟨hsh.1.1.1, hsh.1.2⟩
+    exact ⟨hsh.1.1.1.1, hsh.1.1.2⟩
   cases hoa : sh.outerAfter <;>
   simp [exec, hpre, hfund, resolve, runPre, hgas, hb.1, hb.2, runClosure, runInner, St.keeper,
     hact, hpost, hoa, St.poke]
@@ -275,6 +275,24 @@ theorem outer_write_after_action_is_undone (v : View N) (f out : N → N) :
         .revert 0]] v = (.ok, v, 1000) := by
   simp [runTx, exec, resolve, CallHdr.unfunded, runPre, runClosure, runInner, St.keeper, St.poke, St.enter, hdr0, okAct, fwdGas, keepGas,
     St.revertTo, undoAll, undo, commit, St.addLogs, RunShape.tidy]
+
+/-- `outerOnError` (round 4): a keeper write on `stateDB.Context()` in the ERROR branch after `ExecuteNativeAction` ("drop
+the claim that cannot be executed"): the snapshot has been put back, the write that follows is not journaled, and the
+failing call's frame holds no native journal entry that would restore it — the call FAILS, its caller tolerates that,
+the transaction succeeds, and the write of the failed call is committed -/
+theorem outer_write_on_error_path_survives_failed_call (v : View N) (f out : N → N) :
+    runTx 5 1000 [.pre (hdr0 true) 0 { RunShape.tidy with outerOnError := true } out [] (fun _ _ n => (.err, f n, []))] v =
+      (.ok, { v with native := out v.native }, 15) := by
+  simp [runTx, exec, resolve, CallHdr.unfunded, runPre, runClosure, runInner, St.keeper, St.poke, St.enter, hdr0, fwdGas, keepGas,
+    St.revertTo, undoAll, commit, St.addLogs, RunShape.tidy]
+
+/-- … and the same write is harmless when the call carries a value: the frame's `Transfer` entry holds a snapshot of the
+whole native store from before the call, and reverting the failed frame restores it (why such a defect needs msg.value = 0) -/
+theorem outer_write_on_error_path_is_undone_by_the_value_transfer (v : View N) (f out t : N → N) :
+    runTx 5 1000 [.pre { (hdr0 true : CallHdr N) with xfer := some t } 0 { RunShape.tidy with outerOnError := true } out []
+      (fun _ _ n => (.err, f n, []))] v = (.ok, v, 15) := by
+  simp [runTx, exec, resolve, CallHdr.unfunded, runPre, runClosure, runInner, St.keeper, St.poke, St.enter, St.transfer, hdr0, fwdGas,
+    keepGas, St.revertTo, undoAll, undo, commit, St.addLogs, RunShape.tidy]
 
 /-- `recovers`: the keeper part panics after half-writing the store (a store gas meter running out, say); a deferred
 `recover()` in `Run` turns the panic into an error return — but the panic went THROUGH `ExecuteNativeAction`, which
@@ -355,7 +373,8 @@ theorem runPre_is_fork_native_action (ev : Eval N) (roCtx roCall : Bool) (gas re
       if gas < req then (.fail, s, 0) else
       match naModel (runClosure ev roCtx roCall (gas - req) sh inner act) (if sh.outerBefore then s.poke out else s) with
       | (.ok, s2) => (.ok, if sh.outerAfter then s2.poke out else s2, gas - req)
-      | (.err, s2) => if sh.dropsActionError then (.ok, s2, gas - req) else (.fail, s2, 0)
+      | (.err, s2) => if sh.dropsActionError then (.ok, s2, gas - req)
+                      else (.fail, if sh.outerOnError then s2.poke out else s2, 0)
       | (.panic, s1) => if sh.recovers then (.fail, s1, 0) else (.abort, s1, 0) := by
   unfold runPre naModel
   by_cases hg : gas < req
